@@ -275,10 +275,27 @@ def analysis_kwargs(case, convergence_step=None):
     return kw
 
 
+def grid_values(spec):
+    """A uniform grid of float64 values 0 .. 1 built in one of several ways: uniform within the validation tolerance of MIA's
+    bin_edges, but NOT bit-identical to one another (np.linspace(0, 1, 11)[3] != 3 / 10 != cumsum value)."""
+    kind, n = spec[0], spec[1]
+    if kind == 'linspace':
+        return np.linspace(0, 1, n)
+    if kind == 'arange_div':
+        return np.arange(n) / (n - 1)
+    if kind == 'literal':                       # what a user types: [0, .1, .2, ...] (correctly rounded decimals)
+        return [float(repr(k / (n - 1))) for k in range(n)]
+    if kind == 'cumsum':
+        return np.cumsum([0.0] + [1.0 / (n - 1)] * (n - 1))
+    if kind == 'arange_step':
+        return np.arange(n) * (1.0 / (n - 1))
+    raise ValueError(kind)
+
+
 def bin_edges_of(case):
     be = case['bin_edges']
-    if be and be[0] == 'linspace':
-        return np.linspace(be[1], be[2], be[3])
+    if be and be[0] == 'grid':
+        return grid_values(be[1])
     return [float(v) for v in be]
 
 
@@ -293,10 +310,38 @@ def oneshot_distinguisher(case):
     return getattr(scared, case['cls'] + 'Distinguisher')(**kw)
 
 
+def wide_frame_indices(w):
+    """A long index frame: s, s+1, ..., s+n-1 with the middle part [m0, m1) moved by d columns."""
+    idx = list(range(w['s'], w['s'] + w['n']))
+    for i in range(w['m0'], w['m1']):
+        idx[i] += w['d']
+    return idx
+
+
+def wide_full_samples(run):
+    import random as _random
+    w = run['wide']
+    r = _random.Random(f'C02-wide-{w["seed"]}')
+    return [[r.randint(0, 7) for _ in range(w['L'])] for _ in range(len(run['meta']))]
+
+
+def frame_obj(run, frame=None):
+    """The frame object given to Container for this run (wide runs: the long index list / array, not the probed one)."""
+    if run.get('wide') and frame is None:
+        idx = wide_frame_indices(run['wide'])
+        return np.array(idx, dtype='int64') if run['wide']['kind'] == 'array' else idx
+    return py_frame_obj(run['frame'] if frame is None else frame)
+
+
 def raw_array(run):
     n = len(run['samples'])
+    if run.get('wide'):
+        return np.array(wide_full_samples(run), dtype=run['dtype']).reshape(n, -1)
     a = np.array(run['samples'], dtype=run['dtype']).reshape(n, -1)
-    return a / run['den'] if run.get('den') else a
+    if run.get('grid'):       # samples lie EXACTLY on the values of the grid (= the bin edges of the case): entry k is grid[k]
+        g = np.asarray(grid_values(run['grid']), dtype='float64')
+        return g[np.array(run['samples'], dtype='int64').reshape(n, -1)]
+    return a
 
 
 def analysis_class(case):
@@ -337,12 +382,12 @@ def chain_functions(run, chain=None):
     return fs
 
 
-def make_container(run):
+def make_container(run, ths=None):
     import scared
-    return scared.Container(make_ths(run), frame=py_frame_obj(run['frame']), preprocesses=chain_functions(run))
+    return scared.Container(make_ths(run) if ths is None else ths, frame=frame_obj(run), preprocesses=chain_functions(run))
 
 
-def install(cont, frame, chain, how, frame_changed=True):
+def install(cont, frame, chain, how, frame_changed=True, run=None):
     """Re-assign / mutate in place the public attributes of a Container that was already used."""
     P = prep_functions()
     new = [P[p] for p in chain]
@@ -360,16 +405,19 @@ def install(cont, frame, chain, how, frame_changed=True):
     else:
         cont.preprocesses = new
     if frame_changed:
-        fo = py_frame_obj(frame)
+        fo = frame_obj(run) if run is not None and run.get('wide') else py_frame_obj(frame)
         cont.frame = ... if fo is None else fo
 
 
-def build_container(case, run, containers, other_analysis):
-    """The Container of a run(): a new one, a new one that was already used with other attribute values, or an earlier one."""
+def build_container(case, run, containers, other_analysis, thss=None):
+    """The Container of a run(): a new one, a new one that was already used with other attribute values, an earlier one, or a new
+    one on the trace set object of an earlier run."""
     if run.get('reuse') is not None:
         cont = containers[run['reuse']]
-        install(cont, run['frame'], run['chain'], run.get('how', 'assign'))
+        install(cont, run['frame'], run['chain'], run.get('how', 'assign'), run=run)
         return cont
+    if run.get('same_ths') is not None and thss is not None:
+        return make_container(run, ths=thss[run['same_ths']])
     pre = run.get('pre')
     if not pre:
         return make_container(run)
@@ -388,16 +436,17 @@ def build_container(case, run, containers, other_analysis):
     return cont
 
 
-def int_rows(a, den=None):
-    """Rows of a 2-D array as lists of ints; None when a value is not an integer.  With den: the values must be EXACTLY the
-    float64 numbers k / den (the numerators k are returned) — a value that went through float32 or an integer dtype is not."""
+def int_rows(a, grid=None):
+    """Rows of a 2-D array as lists of ints; None when a value is not an integer.  With grid: the values must be EXACTLY float64
+    values of the grid (their indices are returned) — a value that went through float32 or an integer dtype is not."""
     a = np.asarray(a)
-    if den:
+    if grid:
         if a.dtype != np.dtype('float64'):
             return None
         a = a.reshape(a.shape[0], -1)
-        k = np.round(a * den)
-        if not np.all(np.isfinite(a)) or not np.all(k / den == a):
+        g = np.asarray(grid_values(grid), dtype='float64')
+        k = np.clip(np.round(a * (len(g) - 1)), 0, len(g) - 1).astype('int64')
+        if not np.all(np.isfinite(a)) or not np.all(g[k] == a):
             return None
         return [[int(v) for v in r] for r in k]
     a = a.reshape(a.shape[0], -1).astype('float64')
@@ -544,7 +593,7 @@ def make_case(rng, cls, attack, sizes_bs, L=None, frame_kind=None, nchain=3, dty
     """sizes_bs: list of (N, bs) — one per run().  step: convergence_step (attacks).  history: None | 'reuse' | 'pre' | 'both':
     the SAME Container object is used again after its public attributes were re-assigned / mutated in place.
     wide: full-byte metadata and guesses with the library's models incl. HammingWeight(nb_words = 2, 3) (class sets beyond 0..8).
-    scaled (MIA): float64 samples k/10 — not float32-representable, lying on the bin edges linspace(0, 1, 11).
+    scaled = grid spec (MIA): float64 samples lying exactly on the bin edges, which are built as the spec says (grid_values).
     fail = (run index, 'preprocess' | 'sf'): that run() raises on the batch holding a poisoned trace."""
     L = L or rng.randint(3, 7)
     dtype = dtype or rng.choice(['uint8', 'uint8', 'int16', 'float32'])
@@ -579,7 +628,7 @@ def make_case(rng, cls, attack, sizes_bs, L=None, frame_kind=None, nchain=3, dty
     for ri, (N, bs) in enumerate(sizes_bs):
         meta = [[rng.randint(0, top_meta) for _ in range(W)] for _ in range(N)]
         if scaled:
-            samples = [[rng.randint(0, 10) for _ in range(L)] for _ in range(N)]
+            samples = [[rng.randint(0, scaled[1] - 1) for _ in range(L)] for _ in range(N)]
         elif leak:       # the metadata determines the samples (plus a little noise): a mis-pairing ruins the statistic
             samples = [[min(7, max(lo, (bin(m[0]).count('1') + (m[-1] >> (j % 3)) + j) % 6 + rng.choice([0, 0, 0, 1])))
                         for j in range(L)] for m in meta]
@@ -590,7 +639,7 @@ def make_case(rng, cls, attack, sizes_bs, L=None, frame_kind=None, nchain=3, dty
             fr = [frame[0], [rng.randrange(L) for _ in frame[1]]]
         case['runs'].append({'samples': samples, 'meta': meta, 'dtype': dtype, 'frame': fr, 'chain': chain, 'bs': bs})
         if scaled:
-            case['runs'][-1]['den'] = 10
+            case['runs'][-1]['grid'] = scaled
     # container histories: "each run uses the attribute values current at that run"
     if history in ('reuse', 'both'):
         for ri in range(1, len(case['runs'])):
@@ -668,8 +717,55 @@ def make_case(rng, cls, attack, sizes_bs, L=None, frame_kind=None, nchain=3, dty
         lo_v, hi_v = min(vals), max(vals)
         nb = rng.randint(2, 5)
         w = -(-(hi_v - lo_v + 1) // nb)
-        case['bin_edges'] = ['linspace', 0, 1, 11] if scaled else [lo_v + w * i for i in range(nb + 1)]
+        case['bin_edges'] = ['grid', scaled] if scaled else [lo_v + w * i for i in range(nb + 1)]
         case['prec'] = rng.choice(['float64', 'float64', 'float32', 'uint32'])     # MIA accepts any dtype for its counters
+    return case
+
+
+def make_wide_case(rng, cls, mode, kind):
+    """Wide traces (1001..1500 samples framed by a long index list / array), few rows, reverse CPA / DPA.  Two runs on the SAME
+    trace set object whose frames agree on their ends and differ only in the middle: through two Containers (mode 'same_ths'),
+    through re-assignment of container.frame (mode 'reuse'), or on a fresh trace set (mode 'fresh').  Coq sees the projection of
+    the case on a few probe positions (ends, borders and inside of the part that differs); the chain is element-wise."""
+    n = rng.randint(1001, 1500)
+    s0 = rng.randint(0, 20)
+    m0 = rng.randint(200, 500)
+    m1 = m0 + rng.randint(50, 300)
+    d = rng.randint(3, 40)
+    L = s0 + n + 45
+    N = rng.randint(2, 4)
+    W = rng.randint(1, 2)
+    bs = rng.choice([N, N + 3, 25000]) if mode != 'fresh' or rng.random() < 0.7 else max(1, N - 1)
+    model = ['monobit', rng.randint(0, 3)] if cls == 'DPA' else rng.choice([['value'], ['hw']])
+    chain = rng.choice([[], [], ['add1'], ['square'], ['add1', 'square']])
+    probe = sorted({0, 1, 2, n - 3, n - 2, n - 1, m0 - 1, m0, m0 + 1, (m0 + m1) // 2, m1 - 2, m1 - 1, m1, rng.randrange(n), rng.randrange(m0, m1)})
+    meta = [[rng.randint(0, 15) for _ in range(W)] for _ in range(N)]
+    seed = rng.randrange(10 ** 9)
+    case = {'cls': cls, 'guesses': None, 'model': model, 'disc': 'maxabs', 'prec': rng.choice(['float32', 'float64']), 'partitions': None,
+            'bin_edges': None, 'step': None, 'probe': probe, 'runs': []}
+    variants = [dict(s=s0, n=n, m0=m0, m1=m1, d=0), dict(s=s0, n=n, m0=m0, m1=m1, d=d)]
+    if rng.random() < 0.5:
+        variants.reverse()
+    if rng.random() < 0.25:
+        variants.append(variants[0])
+    for ri, v in enumerate(variants):
+        w = dict(v, L=L, seed=seed, kind=kind if rng.random() < 0.8 else ('list' if kind == 'array' else 'array'))
+        run = {'meta': meta, 'dtype': 'uint8', 'chain': chain, 'setting': ['int', bs], 'wide': w}
+        if ri > 0:
+            if mode == 'same_ths':
+                run['same_ths'] = 0
+            elif mode == 'reuse':
+                run['reuse'] = 0
+                run['how'] = 'assign'
+            else:
+                w['seed'] = seed + ri
+                run['meta'] = [[rng.randint(0, 15) for _ in range(W)] for _ in range(N)]
+        full = wide_full_samples(run)
+        idx = wide_frame_indices(w)
+        cols = sorted({idx[p] for p in probe})
+        run['samples'] = [[row[c] for c in cols] for row in full]             # the columns the probe positions read
+        run['frame'] = ['list', [cols.index(idx[p]) for p in probe]]           # the frame, seen from those columns
+        case['runs'].append(run)
     return case
 
 
@@ -703,8 +799,9 @@ class RunKind(Kind):
             'set_batch_size int / table / MB float, N in 1..3*bs+2 (boundary block: N<bs, N=bs, N=k*bs+1, N=k*bs for every bs 1..12), '
             'frames None/Ellipsis/slice with step/range/index list and array with repeats, chains of 0-3 non-commuting row-wise '
             'preprocesses, 1-3 successive run() calls, float32/float64, attacks with and without convergence_step (step <,=,> bs, dividing N or '
-            'not, > N, derived batch size not dividing the step with N a multiple of the step), full-byte metadata with HammingWeight(nb_words 1-3) / Monobit / Value and automatic class sets, MIA on float64 samples k/10 '
-            'with every counter precision, runs that raise on a later batch between successful runs, container histories (the same Container '
+            'not, > N, derived batch size not dividing the step with N a multiple of the step), full-byte metadata with HammingWeight(nb_words 1-3) / Monobit / Value and automatic class sets, MIA on float64 samples lying exactly on bin edges built five ways (linspace, arange/den, literals, cumsum, arange*step) '
+            'with every counter precision, runs that raise on a later batch between successful runs, wide traces (1001-1500 samples) with long index-array / list frames differing only in the middle on the same trace set object (two '
+            'Containers, frame re-assigned; projected on probe positions), container histories (the same Container '
             'used again by the same or another analysis object after preprocesses / frame were re-assigned or mutated in place); every update() logged; check_fn (property level): rows fed = SPEC '
             'rows in order, no empty batch, results/scores = one-shot update of a the STANDALONE distinguisher / discriminant; corr_fn (correspondence '
             'level): exact batch boundaries = slices, batch size = batch_size_rule; non-trivial = at least two batches in '
@@ -778,11 +875,12 @@ class RunKind(Kind):
                     c = make_case(rng, cls, attack, sizes_for(rng, bs, rng.randint(1, 2)), wide=True)
                 yield c
         # --- MIA on float64 samples k/10 (not float32-representable, on the bin edges), every counter precision
-        for k in range(12):
+        for k in range(15):
             c = None
             while c is None:
                 bs = rng.randint(2, 6)
-                c = make_case(rng, 'MIA', k % 2 == 0, sizes_for(rng, bs, rng.randint(1, 2)), scaled=True, wide=k % 3 == 0)
+                grid = [['linspace', 'arange_div', 'literal', 'cumsum', 'arange_step'][k % 5], [11, 11, 6, 8, 21][(k // 5 + k) % 5]]
+                c = make_case(rng, 'MIA', k % 2 == 0, sizes_for(rng, bs, rng.randint(1, 2)), scaled=grid, wide=k % 3 == 0)
             yield c
         # --- histories with a run() that RAISES on a later batch, between successful runs (and as the first run)
         for k in range(24):
@@ -796,6 +894,9 @@ class RunKind(Kind):
                 c = make_case(rng, cls, k % 3 != 0, sizes, fail=(0 if first else 1, how),
                               step=rng.choice([None, None, 2, 5]) if k % 3 != 0 else None)
             yield c
+        # --- wide traces, long index frames that differ only in the middle, on the same trace set object
+        for k in range(12):
+            yield make_wide_case(rng, ('CPA', 'DPA')[k % 2], ('same_ths', 'reuse', 'same_ths', 'fresh')[k % 4], ('array', 'array', 'list')[k % 3])
         # --- thorough: all N <= 30 x bs <= 12 for CPA (attack) and SNR (reverse), frame + chain fixed per case
         if thorough:
             for bs in range(1, 13):
@@ -822,7 +923,8 @@ class RunKind(Kind):
             if hist is None and nruns >= 2 and r2 < 0.12:
                 fail = (rng.randrange(nruns - 1), rng.choice(['preprocess', 'sf']))
             c = make_case(rng, cls, attack, sizes, step=step, history=hist, wide=0.12 <= r2 < 0.27,
-                          scaled=cls == 'MIA' and 0.27 <= r2 < 0.55, fail=fail)
+                          scaled=([rng.choice(['linspace', 'arange_div', 'literal', 'cumsum', 'arange_step']), rng.choice([6, 8, 11, 11, 21])]
+                                  if cls == 'MIA' and 0.27 <= r2 < 0.6 else False), fail=fail)
             if c is not None:
                 yield c
 
@@ -831,11 +933,13 @@ class RunKind(Kind):
         patch_lut_cache()
         cls = analysis_class(case)
         log = []
-        den = case['runs'][0].get('den')
+        den = case['runs'][0].get('grid')
+
+        probe = case.get('probe')       # wide traces: only these positions of the framed trace are exported
 
         class Logged(cls):
             def update(self, traces, data):
-                t = int_rows(traces, den)
+                t = int_rows(np.asarray(traces)[:, probe] if probe else traces, den)
                 d = int_rows(np.asarray(data).reshape(np.asarray(data).shape[0], -1)) if np.asarray(data).ndim >= 1 else None
                 log.append({'traces': t, 'data': d, 'n_traces': int(np.asarray(traces).shape[0]), 'n_data': int(np.asarray(data).shape[0])})
                 return super().update(traces=traces, data=data)
@@ -848,10 +952,12 @@ class RunKind(Kind):
                 a = Logged(**analysis_kwargs(case, convergence_step=case.get('step')))
                 all_t, all_pt = [], []
                 containers = []
+                thss = []
                 for run in case['runs']:
                     scared.set_batch_size(setting_obj(run['setting']))
-                    cont = build_container(case, run, containers, lambda: cls(**analysis_kwargs(case)))
+                    cont = build_container(case, run, containers, lambda: cls(**analysis_kwargs(case)), thss)
                     containers.append(cont)
+                    thss.append(getattr(cont, '_ths', None))
                     try:
                         b = cont.batch_size
                         obs['bs'].append(None if b is None else int(b))
@@ -868,7 +974,7 @@ class RunKind(Kind):
                     # the whole set, computed without Container: samples[:, frame], then the chain; the metadata as they are
                     n = len(run['samples'])
                     s = raw_array(run)
-                    fo = py_frame_obj(run['frame'])
+                    fo = frame_obj(run)
                     s = s[:, ...] if fo is None else s[:, list(fo) if isinstance(fo, range) else fo]
                     for p in run['chain']:
                         s = P[p](s)
@@ -878,8 +984,9 @@ class RunKind(Kind):
                 scared.set_batch_size(None)
                 obs['updates'] = log
                 obs['processed'] = int(a.processed_traces)
-                obs['shape'] = [int(v) for v in a.results.shape]
-                obs['results'] = flt(a.results)
+                pr = (lambda r: np.asarray(r)[..., probe]) if probe else (lambda r: r)
+                obs['shape'] = [int(v) for v in pr(a.results).shape]
+                obs['results'] = flt(pr(a.results))
                 obs['scores'] = flt(a.scores) if case['guesses'] is not None else None
                 # one-shot: the STANDALONE distinguisher of the class (automatic classes stay automatic), ONE update with everything;
                 # intermediate values from fresh selection function and model objects
@@ -890,8 +997,8 @@ class RunKind(Kind):
                 data = make_model(case['model'])(make_sf(case['guesses'])(plaintext=np.concatenate(all_pt, axis=0)))
                 fresh.update(traces=traces, data=data)
                 res1 = fresh.compute()
-                obs['one_results'] = flt(res1)
-                obs['one_shape'] = [int(v) for v in res1.shape]
+                obs['one_results'] = flt(pr(res1))
+                obs['one_shape'] = [int(v) for v in pr(res1).shape]
                 obs['one_scores'] = flt(getattr(scared, case['disc'])(res1)) if case['guesses'] is not None else None
         finally:
             scared.set_batch_size(None)
@@ -947,10 +1054,11 @@ class RunKind(Kind):
              'prec': case['prec'], 'chain_len': len(case['runs'][0]['chain']), 'frame': case['runs'][0]['frame'][0],
              'setting': case['runs'][0]['setting'][0], 'auto_partitions': case['cls'] in PARTITIONED and case['partitions'] is None,
              'fail': next((r['fail_how'] for r in case['runs'] if r.get('fail') is not None), 'none'),
-             'data': 'scaled_k/10' if case['runs'][0].get('den') else 'wide_bytes' if case['model'][0] == 'hww' or any(
+             'data': 'wide_traces' if case.get('probe') else 'on_grid_' + case['runs'][0]['grid'][0] if case['runs'][0].get('grid') else 'wide_bytes' if case['model'][0] == 'hww' or any(
                  v > 15 for r in case['runs'] for m in r['meta'] for v in m if v != SENTINEL_META) else 'nibbles',
              'model': case['model'][0] + (str(case['model'][1]) if case['model'][0] == 'hww' else ''),
              'history': '+'.join(sorted({'reuse' for r in case['runs'] if r.get('reuse') is not None} |
+                                        {'same_ths' for r in case['runs'] if r.get('same_ths') is not None} |
                                         {'pre:' + r['pre']['use'] for r in case['runs'] if r.get('pre')})) or 'none'}
         st = case.get('step')
         if st is None:
@@ -982,6 +1090,8 @@ class RunKind(Kind):
         return {'case': c, 'observed': o}
 
     def shrink(self, case):
+        if case.get('probe'):       # wide traces: the case is a projection of a generated set, it is already minimal in rows
+            return
         # fewer runs, then fewer traces in a run (a Container that is used again keeps its trace set), then a shorter chain
         runs = case['runs']
         hist = any(r.get('reuse') is not None or r.get('pre') for r in runs)
